@@ -22,7 +22,8 @@ func ruleCopyNullPointersToo(ctx *Ctx, rule string) {
 	}
 	key := "copyStruct | a null source pointer overwrites the destination slot as well"
 	n := 0
-	for _, a := range ssaq.Anchors(f) {
+	all := ssaq.Anchors(f)
+	for _, a := range all {
 		if a.Callee != "capnp.(*Segment).writePtr" {
 			continue
 		}
@@ -33,9 +34,34 @@ func ruleCopyNullPointersToo(ctx *Ctx, rule string) {
 			if strings.Contains(at, "IsValid(readPtr(") || strings.Contains(at, "IsValid(phi") {
 				bad = at
 			}
+			// any other test of the source's pointer word (HasPtr, a raw read
+			// compared with 0, Ptr(j).IsValid()); the error test of readPtr is
+			// the one condition on the pointer that the copy may depend on
+			if (strings.Contains(at, "HasPtr(") || strings.Contains(at, "readRawPointer(") || strings.Contains(at, "IsValid(")) && !strings.Contains(at, ")#1") {
+				bad = at
+			}
+		}
+		// a null source pointer may be handled apart, provided that branch
+		// clears the same destination slot: writeRawPointer(dst.seg, <the
+		// address writePtr gets>, 0) under the negation of the test
+		cleared := false
+		if bad != "" && len(a.Args) > 1 {
+			neg := flipAtom(bad)
+			for _, w := range all {
+				if w.Callee != "capnp.(*Segment).writeRawPointer" || len(w.Args) != 3 || w.Args[0] != a.Args[0] || w.Args[1] != a.Args[1] || w.Args[2] != "0:rawPointer" {
+					continue
+				}
+				for _, at := range w.Atoms {
+					if at == neg {
+						cleared = true
+					}
+				}
+			}
 		}
 		if bad == "" {
 			r.Ok(rule, key, pos, "the pointer copy does not depend on the source pointer being non-null")
+		} else if cleared {
+			r.Ok(rule, key, pos, "a null source pointer is handled apart ("+bad+" guards the copy) and that branch writes a null pointer into the same destination slot")
 		} else {
 			r.Violation(rule, key, pos, "the copy of pointer j is skipped unless "+bad+": a null pointer in the source leaves the destination's old pointer in place, so after CopyFrom / SetStruct onto a populated struct the copy is not equal to the source")
 		}
@@ -78,4 +104,17 @@ func ruleCopySizeWordAligned(ctx *Ctx, rule string) {
 	} else {
 		r.Violation(rule, key, pos, "the struct copy is allocated and encoded with the source's own data size: for the struct view of an element of a List(UInt8/16/32) (always copied, being a list member) that size is not a multiple of a word and the struct-pointer encoder panics (\"data size not aligned by word\")")
 	}
+}
+
+// flipAtom negates a rendered atom of the forms "a != b", "a == b", "!x", "x".
+func flipAtom(at string) string {
+	switch {
+	case strings.Contains(at, " != "):
+		return strings.Replace(at, " != ", " == ", 1)
+	case strings.Contains(at, " == "):
+		return strings.Replace(at, " == ", " != ", 1)
+	case strings.HasPrefix(at, "!"):
+		return at[1:]
+	}
+	return "!" + at
 }
